@@ -207,6 +207,13 @@ impl<Key, Value> Store<Key, Value>
 impl<Key, Value> Store<Key, Value>
     where Key: Hash + Eq + Clone,
           Value: Clone, {
+    /// Index of the DashMap shard `key` lives in (its lock is what a `get_ref` guard keeps read-locked).
+    pub(crate) fn verif_shard_of(&self, key: &Key, shards: usize) -> usize {
+        // DashMap::determine_shard (not public without its `raw-api` feature): leave the high 7 bits for the hashbrown tag
+        let shift = usize::BITS as usize - shards.trailing_zeros() as usize;
+        (self.store.hash_usize(&key) << 7) >> shift
+    }
+
     /// All physically present entries: (key, value, key id, expiry, soft-deleted).
     pub(crate) fn verif_entries(&self) -> Vec<(Key, Value, KeyId, Option<ExpireAfter>, bool)> {
         self.store.iter().map(|pair| (pair.key().clone(), pair.value().value(), pair.value().key_id(), pair.value().expire_after(), pair.value().is_soft_deleted)).collect()
